@@ -1,6 +1,7 @@
 //! E1 scenario driver: `scen <scenario> --seed S --shard i --nshards n --cases N --tier T --out F`
 mod common;
 mod acks;
+mod cfilter;
 mod delivery;
 mod durability;
 mod fragdirect;
@@ -21,6 +22,7 @@ fn main() {
         "c04" => durability::run(&shard),
         "c27" => keeplast::run(&shard),
         "c29" => lifespan::run(&shard),
+        "c26" => cfilter::run(&shard),
         "c31" => oversleep::run(&shard),
         "c02" => delivery::run(&shard, "C02", delivery::Mode::BestEffort),
         "c05" => {
